@@ -772,17 +772,20 @@ def probes(rng, tier):
 LEVEL_TEXT = ('Proof: on a deep embedding of functional arithmetic (18 node classes: LpNorm p=1,2,inf, unit-ball indicators, '
               'L2NormSquared, Constant/Zero, IndicatorZero, Huber, QuadraticForm(scaling), Left/Right scalar and vector '
               'multiples, sums, translation, quadratic perturbation, infimal convolution, default conjugate, Bregman distance, '
-              'separable sum) Coq proves by structural induction, for EVERY tree, dimension, positive weighting, x, y and sigma > 0: '
-              '(1) f(x) + f.convex_conj(y) >= <x,y> for the conjugate TREE that the convex_conj rules build, whenever both values '
-              'can be evaluated; (2) the Moreau decomposition prox_{sigma f}(x) + sigma prox_{f*/sigma}(x/sigma) = x whenever both '
-              'proximals exist (LpNorm(inf)/l1-ball pair excluded: sort-based projection, validated only). The model '
-              '(values, conjugate trees incl. scalar merging and the is_linear dispatch, proximals, gradients, exception classes) '
-              'is tied to /repo by an in-Coq correspondence on random trees (class tree of f*, f** and all values compared). '
-              'Equality at the gradient and f** = f are validated by the correspondence and by probes, not yet theorems; '
-              'KL pairs, GroupL1, NuclearNorm, general-p norms, matrix QuadraticForm are probed only.')
-LEVEL_NOTE = ('Side conditions of the theorems (wf, D) are spelled out in Props.v/Rules.v/ProxRules.v: positive left scalars, '
-              'non-zero right scalars/vectors, a >= 0, gamma > 0, no affine QuadraticPerturb of a functional flagged linear. '
-              'Exact arithmetic (rounding and the (1 +- 10 eps) guards are outside; tolerance 1e-9). np.sqrt enters as a function '
-              'with its defining property. Two open findings: QuadraticForm.convex_conj for non-self-adjoint operators violates '
-              'Fenchel-Young; Huber cannot be evaluated on array-weighted spaces. Axioms: classical reals + funext as printed.')
+              'separable sum) Coq proves by structural induction, for EVERY tree, dimension, positive weighting, x, y and sigma > 0, '
+              'about the conjugate TREE that the convex_conj rules build: (1) f(x) + f*(y) >= <x,y>; (2) equality at y = grad f(x); '
+              '(3) the Moreau decomposition prox_{sigma f}(x) + sigma prox_{f*/sigma}(x/sigma) = x whenever both proximals exist '
+              '(incl. the sort-based l1-ball projection); (4) f** = f in value wherever both can be evaluated, under an explicit '
+              'side condition B -- without B the statement is proved FALSE of the faithful model and of the library '
+              '(finding defaultconj-linear-flag). The model (values, conjugate trees incl. scalar merging and the is_linear '
+              'dispatch, proximals, gradients, exception classes) is tied to /repo by an in-Coq correspondence on random trees '
+              '(class trees of f, f*, f** and all values compared). KL pairs, GroupL1, NuclearNorm, general-p norms, '
+              'matrix QuadraticForm, element-valued sigma are probed only.')
+LEVEL_NOTE = ('Side conditions (wf, D, B) are spelled out in Props.v: positive left scalars, non-zero right scalars/vectors, '
+              'a >= 0, gamma > 0, no affine QuadraticPerturb of a functional flagged linear; D and B exclude corners created by the '
+              'linear flag of conjugates. Exact arithmetic (rounding and the (1 +- 10 eps) guards are outside; tolerance 1e-9). '
+              'np.sqrt enters as a function with its defining property. Three open findings with tested repairs: '
+              'QuadraticForm.convex_conj for non-self-adjoint operators violates Fenchel-Young; Huber cannot be evaluated on '
+              'array-weighted spaces; FunctionalDefaultConvexConjugate inherits the linear flag (wrong biconjugate values). '
+              'Axioms: classical reals + funext as printed.')
 TECHNIQUE = 'Coq proof by structural induction on functional expression trees + in-Coq differential correspondence'
